@@ -371,7 +371,7 @@ def t_reciprocal(E):
     E.refutable("smc.reciprocal_normalizing_constant", E.eq(res, 0.0))
 
 
-@task("smc.change_target", props=["C26"], functions=FUNCS)
+@task("smc.change_target", props=["C26", "C04"], functions=FUNCS)
 def t_change_target(E):
     """ChangeTarget reweights each particle by  new target weight - old particle score + old weight"""
     z3, T = E.z3, E.I.T
@@ -391,13 +391,21 @@ def t_change_target(E):
     ct = E.new(SMC + ":ChangeTarget", prev=prev, target=tgt)
     k = key(E)
     pc = E.method(ct, "run_smc", k)
-    split = E.ctx.fn("split", U, z3.IntSort(), z3.IntSort(), U)
+    # the key of particle i's re-targeting run is read off particle i (symbolic i), however ChangeTarget derives it
+    from theory import keys as KY
+    i_any = E.ctx.const("i_any_particle", z3.IntSort())
+    ki, _ = _keys_of_particle(E, E.I.to_u(pc.fields["particles"].at(i_any)), False, "ChangeTarget.run_smc")
+    key_at = lambda i: z3.substitute(ki, (i_any, i))
+    i1, i2 = E.ctx.const("i_particle", z3.IntSort()), E.ctx.const("j_particle", z3.IntSort())
+    E.prove("C04.ChangeTarget.run_smc.particles_are_retargeted_with_independent_keys_derived_from_the_given_key", z3.Implies(
+        z3.And(0 <= i1, i1 < K.t, 0 <= i2, i2 < K.t, i1 != i2),
+        z3.And(KY.independent(E.I, key_at(i1), key_at(i2)), KY.derived_from(E.I, key_at(i1), k.t))), also=["C26"])
 
     def spec(i):
         old_choices = T.tr_choices(pf(i))
         latents = T.chm_filter_sel(old_choices, T.sel_not(T.chm_sel(old_tgt.fields["constraint"].t)))
         merged = T.chm_or(c.t, latents)
-        tr = T.gen_tr(g.t, split(k.t, K.t, i), merged, args.t)
+        tr = T.gen_tr(g.t, key_at(i), merged, args.t)
         return tr, merged
     E.prove("C26.ChangeTarget.run_smc.reweights_by_ratio_of_new_to_old_target", forall_i(E, K.t, lambda i: E.And(
         E.eq(pc.fields["particles"].at(i), UVal(spec(i)[0], "Trace")),
